@@ -604,7 +604,7 @@ fn run_generated<C>(
                         failure_persistence: None,
                         rng_seed: RngSeed::Fixed(seed_bytes(seed, sub, t)),
                         rng_algorithm: RngAlgorithm::ChaCha,
-                        max_shrink_iters: 20_000,
+                        max_shrink_iters: 6_000,
                         max_global_rejects: 1_000_000,
                         ..Config::default()
                     };
